@@ -281,6 +281,8 @@ def run(ctx):
         bell_gen(ctx, r2[0] if r2 else None, parb)
     except Unsupported as e:
         rep.unk('J2', 'a_trajbell_gen', str(e))
+    magnitude_only(ctx)
+    rep.floor('J5', 4)
     rep.floor('J1', 5)
     rep.floor('J1h', 6)
     rep.floor('J2', 5)
@@ -307,6 +309,79 @@ def boundary_hold(rep, res, par, sname, table, tsym):
             rep.bad('J1h', f, '; '.join(sorted(set(probs))[:2]), loc=loc, key='%s: boundary hold' % f)
         else:
             rep.ok('J1h', f, 'queries before 0 / after t return %s / %s' % (lo_name, hi_name), loc=loc)
+
+
+# ---------------------------------------------------------------- J5 limits enter through their magnitude
+def magnitude_only(ctx):
+    """J2/J3 analyse the generators for POSITIVE limits; the property quantifies over all finite limits.  What reduces the one to the other
+    is the prologue  if (m < 0) m = -m  of every limit argument.  Rule: a limit argument m is used by nothing but (a) a comparison with
+    0, (b) its own negation, (c) the merge  (m < 0 ? -m : m)  - whose orientation is checked -, and that negation feeds nothing but the
+    merge; everything else (the clamps of the boundary velocities in particular) sees the magnitude."""
+    rep = ctx.rep
+    for unit, fname, limits in (('trajtrap', 'a_trajtrap_gen', ['vm']), ('trajbell', 'a_trajbell_gen', ['jm', 'am', 'vm'])):
+        fn = ctx.fn(unit, fname)
+        if fn is None:
+            rep.unk('J5', fname, 'anchor vanished')
+            continue
+        pnames = [pn for _, pn in fn.params]
+        for P in limits:
+            sym = '%s(%s)' % (fname, P)
+            if P not in pnames:
+                rep.unk('J5', sym, 'parameter vanished (parameters: %s)' % pnames)
+                continue
+            instrs = list(fn.instrs())
+            uses = lambda r: [i for i in instrs if any(o.k == 'reg' and o.v == r for o in i.ops)]
+            is_zero = lambda o: o.k == 'fp' and float(o.v) == 0.0
+            negs, merges, probs = [], [], []
+            for i in uses(P):
+                if i.op == 'fcmp' and any(is_zero(o) for o in i.ops):
+                    continue
+                if i.op == 'fneg':
+                    negs.append(i)
+                    continue
+                if i.op in ('select', 'phi') or (i.op == 'call' and 'fabs' in str(i.x.get('callee').v if i.x.get('callee') is not None else '')):
+                    merges.append(i)
+                    continue
+                probs.append('the raw argument is used by %s %%%s (%s) - a negative limit is not reduced to its magnitude there' % (i.op, i.res, fn.loc(i)))
+            negres = set(n.res for n in negs)
+            for n in negs:
+                for u in uses(n.res):
+                    if u not in merges and not (u.op in ('select', 'phi') and any(o.k == 'reg' and o.v == P for o in u.ops)):
+                        probs.append('the negation of the raw argument is used by %s %%%s (%s)' % (u.op, u.res, fn.loc(u)))
+            for mg in merges:
+                if mg.op == 'select':
+                    c, a, b = mg.ops
+                    cd = fn.defs.get(c.v) if c.k == 'reg' else None
+                    if cd is None or cd.op != 'fcmp':
+                        probs.append('the merge %%%s is not controlled by a comparison of the argument with 0' % mg.res)
+                        continue
+                    x, y = cd.ops
+                    pred = cd.x['pred'][1:]
+                    if is_zero(x) and y.k == 'reg' and y.v == P:
+                        pred = {'lt': 'gt', 'le': 'ge', 'gt': 'lt', 'ge': 'le'}.get(pred, pred)
+                    elif not (is_zero(y) and x.k == 'reg' and x.v == P):
+                        probs.append('the merge %%%s is controlled by %s, not by the sign of the argument' % (mg.res, cd.res))
+                        continue
+                    neg_when_true = pred in ('lt', 'le')
+                    pos_when_true = pred in ('gt', 'ge')
+                    a_neg = a.k == 'reg' and a.v in negres
+                    b_neg = b.k == 'reg' and b.v in negres
+                    a_raw = a.k == 'reg' and a.v == P
+                    b_raw = b.k == 'reg' and b.v == P
+                    if not ((neg_when_true and a_neg and b_raw) or (pos_when_true and a_raw and b_neg)):
+                        probs.append('the merge %%%s = (%s %s 0 ? %s : %s) is not the magnitude of the argument' % (mg.res, P, pred, 'negated' if a_neg else 'raw', 'negated' if b_neg else 'raw'))
+                elif mg.op == 'phi':
+                    inc = set(o.v for o in mg.ops if o.k == 'reg')
+                    if not (P in inc and inc & negres and len(inc) == 2):
+                        probs.append('the merge %%%s joins %s, expected the argument and its negation' % (mg.res, sorted(inc)))
+            if not merges and (negs or probs):
+                probs.append('no magnitude is formed from the argument')
+            loc = fn.loc(fn.entry.instrs[0])
+            if probs:
+                rep.bad('J5', sym, '; '.join(sorted(set(probs))[:2]), loc=loc, key='%s: limit %s used raw' % (fname, P))
+            else:
+                rep.ok('J5', sym, 'used only by the sign test, its negation and the merge (%s < 0 ? -%s : %s); everything else sees the magnitude (%d uses)' % (P, P, P, len(uses(P))), loc=loc,
+                       sample={'fn': fname, 'limit': P, 'uses': len(uses(P))})
 
 
 # ---------------------------------------------------------------- J2 generators
@@ -432,6 +507,28 @@ def bell_gen(ctx, res, parb):
     probs = []
     nuse = 0
     nsingle = 0
+    counts = {'ok': 0, 'bad': 0}
+
+    def continuity(pc, ff, what, pctext):
+        rev = any(is_reversed(c, 'p0_', 'p1_') for c in pc)
+        for f in ('a_trajbell_pos', 'a_trajbell_vel', 'a_trajbell_acc'):
+            fn2, dom2, lv2 = res[f]
+            modes = sorted(set(mode_key(split_pc(l)[1]) for l in lv2))
+            modes = [m for m in modes if m] or [()]
+            revkey = canon_cond(alg.Cond('fcmp', 'ogt', S('p0'), S('p1')))
+            want_mode = [m for m in modes if ((revkey in m) == rev)]
+            m = want_mode[0] if want_mode else modes[0]
+            for b in bounds:
+                left = leaf_at(lv2, b - sp.Rational(1, 2), par_small(parb), m)
+                right = leaf_at(lv2, b + sp.Rational(1, 2), par_small(parb), m)
+                if len(left) != 1 or len(right) != 1:
+                    raise Unsupported('cannot select the phases around %s' % b)
+                e = (sp.sympify(left[0].ret) - sp.sympify(right[0].ret)).subs(X, b).subs(ff)
+                if alg.sqrt_zero(e):
+                    counts['ok'] += 1
+                else:
+                    counts['bad'] += 1
+                    probs.append('%s discontinuous at %s on %s planning path %s' % (f, b, what, pctext))
     for lf in lv:
         r = lf.ret
         if r is None or r is TOP or sp.sympify(r) == 0:
@@ -452,25 +549,51 @@ def bell_gen(ctx, res, parb):
             nuse += 1
             if nuse > 40:
                 continue
-        rev = any(is_reversed(c, 'p0_', 'p1_') for c in lf.pc)
-        for f in ('a_trajbell_pos', 'a_trajbell_vel', 'a_trajbell_acc'):
-            fn2, dom2, lv2 = res[f]
-            modes = sorted(set(mode_key(split_pc(l)[1]) for l in lv2))
-            modes = [m for m in modes if m] or [()]
-            revkey = canon_cond(alg.Cond('fcmp', 'ogt', S('p0'), S('p1')))
-            want_mode = [m for m in modes if ((revkey in m) == rev)]
-            m = want_mode[0] if want_mode else modes[0]
-            for b in bounds:
-                left = leaf_at(lv2, b - sp.Rational(1, 2), par_small(parb), m)
-                right = leaf_at(lv2, b + sp.Rational(1, 2), par_small(parb), m)
-                if len(left) != 1 or len(right) != 1:
-                    raise Unsupported('cannot select the phases around %s' % b)
-                e = (sp.sympify(left[0].ret) - sp.sympify(right[0].ret)).subs(X, b).subs(ff)
-                if alg.sqrt_zero(e):
-                    ok += 1
-                else:
-                    bad += 1
-                    probs.append('%s discontinuous at %s on %s planning path %s' % (f, b, 'the first-pass exit' if single else 'the limit-reached', str(lf.pc)[-160:] if single else str(lf.pc)[:100]))
+        continuity(lf.pc, ff, 'the first-pass exit' if single else 'the limit-reached', str(lf.pc)[-160:] if single else str(lf.pc)[:100])
+    # ---- the exits of an ARBITRARY pass of the acceleration search: one abstract iteration from the loop header with the trial
+    # acceleration and the step width as symbols (the fields written at the three exits are closed forms in the trial acceleration)
+    ngen = 0
+    try:
+        loops = fn.loops()
+        if len(loops) != 1:
+            raise Unsupported('expected one search loop in a_trajbell_gen, found %d' % len(loops))
+        header = loops[0][0]
+        phis = [i for i in header.instrs if i.op == 'phi']
+        names_ = names_for(ctx, 'trajbell', 'a_trajbell')
+        dom_g = alg.Alg(names_)
+        argn = ['jm_', 'am_', 'vm_', 'p0_', 'p1_', 'v0_', 'v1_']
+        args_g = [Ptr('ctx', 0)] + [dom_g.sym(a, real=True, **({'positive': True} if a in ('jm_', 'am_', 'vm_') else {})) for a in argn]
+        it = symx.Interp(dom_g, lookup_in([ctx.module('trajbell')]), max_paths=20000, max_steps=3000000)
+        it.prune_loops = True
+        ro0, _ = it.run_region(fn, args_g, fn.entry, {}, [header])
+        pre = []
+        for s0, blk, prev in ro0:
+            if blk is not header:
+                continue
+            st_v0 = s0.store.get([k for k, nm in dom_g.names.items() if nm == 'v0'][0])
+            st_v1 = s0.store.get([k for k, nm in dom_g.names.items() if nm == 'v1'][0])
+            if st_v0 is None or st_v1 is None or str(st_v0[0]) != 'v0_' or str(st_v1[0]) != 'v1_':
+                continue          # clamped end velocities are special cases of the closed forms in v0, v1
+            pre.append((s0, prev))
+        limit = (6 if ctx.tier == 'thorough' else 2)
+        for s0, prev in pre[:limit]:
+            env0 = dict(s0.env)
+            for k_, ph in enumerate(phis):
+                env0[ph.res] = dom_g.sym('A' if k_ == 0 else 'C%d' % k_, real=True, positive=True) if not ph.ty.is_ptr else it.val(ph.ops[ph.x['labels'].index(prev.name)], s0, fn)
+            # which phi is the trial acceleration does not matter for the closed forms; both are positive reals
+            ro2, rets = it.run_region(fn, args_g, header, env0, [header], st=s0.clone())
+            for s_, rv in rets:
+                if rv is None or rv is TOP or sp.sympify(rv) == 0:
+                    continue
+                lf = symx.Leaf(s_.pc, rv, s_.store, {}, s_.calls, s_.trace, s_.pc_raw, s_.offs, None, s_.reads)
+                ff = final_fields(dom_g, lf)
+                if S('t') not in ff or S('tv') not in ff:
+                    continue
+                ngen += 1
+                continuity(lf.pc, ff, 'an exit of an arbitrary pass of the acceleration search', str(lf.pc)[-160:])
+    except Unsupported as e:
+        rep.unk('J2', 'a_trajbell_gen[arbitrary pass]', str(e), loc=loc)
+    ok, bad = counts['ok'], counts['bad']
     # J3: the constant-acceleration sub-phases have non-negative length because the planning branch's own guard says so
     j3 = []
     nj3 = 0
@@ -525,5 +648,5 @@ def bell_gen(ctx, res, parb):
     elif probs:
         rep.bad('J2', 'a_trajbell_gen[planning paths]', '; '.join(sorted(set(probs))[:2])[:600], loc=loc, key='a_trajbell_gen: continuity')
     else:
-        rep.ok('J2', 'a_trajbell_gen[planning paths]', 'pos/vel/acc continuous at all %d phase boundaries on %d limit-reached planning paths and %d first-pass exits of the acceleration search (%d equations, modulo sqrt relations)'
-               % (len(bounds), min(nuse, 40), nsingle, ok), loc=loc)
+        rep.ok('J2', 'a_trajbell_gen[planning paths]', 'pos/vel/acc continuous at all %d phase boundaries on %d limit-reached planning paths, %d first-pass exits and %d exits of an arbitrary pass (trial acceleration symbolic) of the acceleration search (%d equations, modulo sqrt relations)'
+               % (len(bounds), min(nuse, 40), nsingle, ngen, ok), loc=loc)
